@@ -313,7 +313,7 @@ Section Placement.
         | Some (a, fi, fsz, cf', if2') =>
             Ok (mkState ((i, a) :: st_log st) cf'
                         (if Z.eqb cf' cf then cs else is1)
-                        (if dense then bump if2' (cf' + fsz - 1 - if2') else if2'))
+                        (bump if2' (fi + fsz - if2')))
         end
     end.
 
@@ -330,9 +330,9 @@ End Placement.
 (* result of step 1: the log (most recent first) and (implicit_x1, implicit_x2, implicit_y1, implicit_y2) *)
 Definition grid_place_log (tcols trows : Z) (colflow dense : bool) (items : list item)
   : outcome (plog * (Z * Z * Z * Z)) :=
-  (* grid-template-areas none: grid_areas = [[None]] then padded to the template track counts *)
-  let ec := Z.max 1 tcols in
-  let er := Z.max 1 trows in
+  (* grid-template-areas none: the explicit grid has the template track counts, possibly 0 *)
+  let ec := tcols in
+  let er := trows in
   let doc := index_from 0 items in
   let l1 := phase11 doc [] in
   let children := sort_children doc in
@@ -344,7 +344,10 @@ Definition grid_place_log (tcols trows : Z) (colflow dense : bool) (items : list
       let '(if1, if2) := first_bounds colflow (areas l2) (0, if colflow then ec else er) in
       match phase14 colflow dense is1 is2 if1 rem (mkState l2 if1 is1 if2) with
       | Ok st =>
-          Ok (st_log st, if colflow then (if1, st_if2 st, is1, is2) else (is1, is2, if1, st_if2 st))
+          (* "Keep one track when there is neither explicit track nor grid item" *)
+          let if2 := Z.max (st_if2 st) (if1 + 1) in
+          let is2' := Z.max is2 (is1 + 1) in
+          Ok (st_log st, if colflow then (if1, if2, is1, is2') else (is1, is2', if1, if2))
       | OutOfFuel => OutOfFuel
       end
   end.
@@ -360,7 +363,7 @@ Definition grid_place (tcols trows : Z) (colflow dense : bool) (items : list ite
    grid-placement properties are counted from the end of the explicit grid (columns[::2] / rows[::2] hold one
    list of names per line: explicit tracks + 1), then the phases above run *)
 Definition resolve_item (tcols trows : Z) (it : item) : item :=
-  let nc := Z.max 1 tcols + 1 in let nr := Z.max 1 trows + 1 in
+  let nc := tcols + 1 in let nr := trows + 1 in
   mkItem (resolve_line nc (col_s it)) (resolve_line nc (col_e it))
          (resolve_line nr (row_s it)) (resolve_line nr (row_e it)) (order it).
 Definition grid_layout_place (tcols trows : Z) (colflow dense : bool) (items : list item)
@@ -383,8 +386,7 @@ Definition zsum (l : list Z) : Z := fold_right Z.add 0 l.
 
 (* the track list after `columns.insert(0, ...)` / `columns.append(...)`: sizes in px *)
 Definition implicit_tracks (explicit : list Z) (auto : Z) (i1 i2 : Z) : list Z :=
-  let ex := match explicit with [] => [auto] | _ => explicit end in
-  repeat auto (Z.to_nat (0 - i1)) ++ ex ++ repeat auto (Z.to_nat (i2 - Z.of_nat (length ex))).
+  repeat auto (Z.to_nat (0 - i1)) ++ explicit ++ repeat auto (Z.to_nat (i2 - Z.of_nat (length explicit))).
 
 (* 3.5 with justify-content / align-content normal: positions from the content edge (0) *)
 Fixpoint track_positions (sizes : list Z) (gap pos : Z) : list Z :=
@@ -625,7 +627,7 @@ Fixpoint flex_mark (hyp : Q) (ts : list track) (sizes : list (Q * Q)) (infl : li
   | t :: ts', s :: sizes', i :: infl' =>
       if negb i && is_fr t && (if Qlt_le_dec (hyp * fr_factor t) (fst s) then true else false)
       then let free' := free - fst s in
-           let '(m, f, st) := flex_mark hyp ts' sizes' infl' free' (if Qlt_le_dec 0 free' then true else false) in
+           let '(m, f, st) := flex_mark hyp ts' sizes' infl' free' false in   (* stop = False: restart *)
            (true :: m, f, st)
       else let '(m, f, st) := flex_mark hyp ts' sizes' infl' free stop in (i :: m, f, st)
   | _, _, _ => ([], free, stop)
@@ -652,13 +654,6 @@ Fixpoint flex_expand (ff : Q) (ts : list track) (sizes : list (Q * Q)) (infl : l
       else let '(r, f) := flex_expand ff ts' sizes' infl' free in (s :: r, f)
   | _, _, _ => ([], free)
   end.
-(* 1.5 expand stretched auto tracks: the tracks whose MIN sizing function is 'auto', i.e. the fr tracks *)
-Fixpoint stretch_auto (d : Q) (ts : list track) (sizes : list (Q * Q)) : list (Q * Q) :=
-  match ts, sizes with
-  | t :: ts', s :: sizes' => (if is_fr t then (fst s + d, snd s) else s) :: stretch_auto d ts' sizes'
-  | _, _ => []
-  end.
-
 (* None: division by len(tracks) = 0, or fuel exhausted (proved impossible) *)
 Definition resolve_tracks (ts : list track) (box gap : Q) (stretch : bool) : option (list Q) :=
   match ts with
@@ -675,12 +670,9 @@ Definition resolve_tracks (ts : list track) (box gap : Q) (stretch : bool) : opt
       | None => None
       | Some (infl, free2, ff) =>
           let '(sizes3, free3) := flex_expand ff ts sizes1 infl free2 in
-          let nauto := length (filter is_fr ts) in
-          let sizes4 :=
-            if stretch && (if Qlt_le_dec 0 free3 then true else false) && negb (Nat.eqb nauto 0)
-            then stretch_auto (free3 / inject_Z (Z.of_nat nauto)) ts sizes3
-            else sizes3 in
-          Some (map fst sizes4)
+          (* 1.5 stretches the tracks whose MAX sizing function is 'auto': none of px, percentage, fr
+             (`stretch`, justify-content / align-content normal or stretch, no longer matters) *)
+          Some (map fst sizes3)
       end
   end.
 
